@@ -44,7 +44,7 @@ kf("C01", "C01-private-subobject-pointer-argument", "`f(&x[i])` with x a private
    ["C01|F4idx/ptrarg-*/private/*|*|malformed-output:OpFunctionCall*", "C01|F4idx/ptrarg-*/private/*|*|malformed-output:OpAccessChain*"])
 
 kf("C01", "C01-private-initialiser-dropped", "the initialiser of a module-scope private variable is dropped: `var<private> pq: u32 = 3u;` is emitted as OpVariable Private without an initializer operand (the constant 3 does not occur in the module), so every function that reads pq before writing it sees 0/undefined instead of 3; HLSL, MSL and GLSL keep the initialiser. Seen with one entry point as well as with several",
-   ["C01|F5reach/*Q@*|*|mismatch", "C01|F1lit/private/*|*|mismatch"])
+   ["C01|F5reach/*/t=*Q*|*|mismatch", "C01|F1lit/private/*|*|mismatch"])
 
 kf("C01", "C01-const-composite-null", "a module-scope `const` of array type copied into a function variable (`var t = TBL; t[i]`) is emitted as OpConstantNull: the SPIR-V backend emits constants that have no inline value as null (`emitConstant` fallback), so every element reads as zero",
    ["C01|F1lit/constarray/*|*|mismatch"])
